@@ -844,6 +844,8 @@ def exp(a):
             c.add_axiom(v > 0)
             # exp(u) >= 1 + u (tangent at 0), cheap and often enough
             c.add_axiom(v >= 1 + az)
+            c.add_axiom(z3.Implies(az < 0, v < 1))
+            c.add_axiom(z3.Implies(az == 0, v == 1))
             for (j, other) in c.fun_atoms.get('exp', []):
                 if j == idx:
                     continue
@@ -851,9 +853,10 @@ def exp(a):
                 w = c.atoms[j]
                 c.add_axiom(z3.And(z3.Implies(az < oz, v < w), z3.Implies(az > oz, v > w),
                                    z3.Implies(az == oz, v == w)))
-                # tangent lines between the two points (convexity)
-                c.add_axiom(v >= w * (1 + az - oz))
-                c.add_axiom(w >= v * (1 + oz - az))
+                # tangent lines between the two points (convexity): nonlinear, on request
+                if getattr(c, 'exp_tangents', False):
+                    c.add_axiom(v >= w * (1 + az - oz))
+                    c.add_axiom(w >= v * (1 + oz - az))
         r = _fun_atom('exp', a0, build)
     if a.d is not None:
         r = lift(r)
